@@ -38,7 +38,7 @@ Post(p) ==
          /\ order' = Ints(p.order)
          /\ Len(order') = p.nmsgs
 
-Shape(f) == [ver |-> f.ver, neg |-> f.neg, blen |-> f.blen]
+Shape(f) == [ver |-> f.ver, neg |-> f.neg, blen |-> f.blen, sid |-> f.sid]
 SegRec(s) == [lo |-> s.lo, hi |-> s.hi, sc |-> s.sc, z |-> s.z]
 
 TraceInit ==
